@@ -564,4 +564,137 @@ theorem olsFromRows_scale (rows : List MsdRow) (n : Nat) (dt c : Rat) :
   · simp only [Except.map, olsVarSlope_scale, rabs_mul_sq, if_true, Except.ok.injEq, Est.mk.injEq, and_true]
     refine ⟨by ring, by ring, by ring⟩
 
+/-! ### automatic number of lags -/
+
+theorem pySliceOpt_none {α} (l : List α) : pySliceOpt l none none = l := by
+  have := pySliceOpt_nonneg l (l.length : Int) (by omega)
+  unfold pySliceOpt at this ⊢
+  simp only [Option.getD_none, Option.getD_some] at this ⊢
+  rw [this]; simp
+
+theorem msdCounts_some_eq_take (t : List Pt) (k : Nat) :
+    msdCounts t (some (k : Int)) = (msdCounts t none).take k := by
+  unfold msdCounts lagsOf
+  rw [pySliceOpt_nonneg _ _ (by omega), pySliceOpt_none, ← List.map_take]
+  simp
+
+theorem msdCounts_take (t : List Pt) (k m : Nat) (h : k ≤ m) :
+    (msdCounts t (some (m : Int))).take k = msdCounts t (some (k : Int)) := by
+  rw [msdCounts_some_eq_take, msdCounts_some_eq_take, List.take_take, Nat.min_eq_left h]
+
+/-- the invariant of the cache of `determine_optimal_points` -/
+def OptInv (t : List Pt) (s : OptState) : Prop := s.rows = msdCounts t (some (s.numberComputed : Int))
+
+theorem refresh_numSlope (t : List Pt) (s : OptState) : (refresh t s).numSlope = s.numSlope := by
+  unfold refresh; simp only; split <;> rfl
+theorem refresh_numIntercept (t : List Pt) (s : OptState) : (refresh t s).numIntercept = s.numIntercept := by
+  unfold refresh; simp only; split <;> rfl
+theorem refresh_seen (t : List Pt) (s : OptState) : (refresh t s).seen = s.seen := by
+  unfold refresh; simp only; split <;> rfl
+theorem refresh_inv (t : List Pt) (s : OptState) (h : OptInv t s) : OptInv t (refresh t s) := by
+  unfold refresh OptInv; simp only; split
+  · rfl
+  · exact h
+theorem refresh_le (t : List Pt) (s : OptState) : s.numSlope ≤ (refresh t s).numberComputed := by
+  unfold refresh; simp only; split
+  · simp only; omega
+  · omega
+
+theorem refresh_take (t : List Pt) (s : OptState) (h : OptInv t s) :
+    (refresh t s).rows.take s.numSlope = msdCounts t (some (s.numSlope : Int)) := by
+  rw [refresh_inv t s h, msdCounts_take _ _ _ (refresh_le t s)]
+
+
+/-- SPECIFICATION of the lag search: no cache, no bookkeeping of `num_intercept` / `number_computed` — every iteration
+    computes the MSD curve afresh for exactly the `cur.1` lags it fits. -/
+def optSpec (op : OptPts) (t : List Pt) : Nat → Nat × Nat → List Nat → Except String (Nat × Nat)
+  | 0, cur, _ => .ok cur
+  | fuel + 1, cur, seen =>
+    if t.length ≤ 4 then .error "RuntimeError"
+    else match op (locErr (ptsOf (msdCounts t (some (cur.1 : Int))))) t.length with
+      | .error e => .error e
+      | .ok nxt => if nxt.1 ∈ cur.1 :: seen then .ok nxt else optSpec op t fuel nxt (cur.1 :: seen)
+
+theorem optLoop_eq_spec (op : OptPts) (t : List Pt) : ∀ (fuel : Nat) (s : OptState), OptInv t s →
+    optLoop op t fuel s = optSpec op t fuel (s.numSlope, s.numIntercept) s.seen
+  | 0, _, _ => rfl
+  | fuel + 1, s, h => by
+    have hi := refresh_inv t s h
+    simp only [optLoop, optSpec, refresh_numSlope, refresh_seen, refresh_take t s h]
+    by_cases h4 : t.length ≤ 4
+    · simp only [h4, if_true]
+    · simp only [h4, if_false]
+      generalize op (locErr (ptsOf (msdCounts t (some (s.numSlope : Int))))) t.length = r
+      cases r with
+      | error e => rfl
+      | ok nxt =>
+        simp only
+        by_cases hm : nxt.1 ∈ s.numSlope :: s.seen
+        · simp only [hm, if_true]
+        · simp only [hm, if_false]
+          exact optLoop_eq_spec op t fuel _ hi
+
+theorem optInit_inv (t : List Pt) (n : Nat) : OptInv t (optInit n) := by
+  unfold OptInv optInit
+  simp only [Nat.cast_zero]; rfl
+
+/-- the spec depends on the track only through its MSD curve and its number of points -/
+theorem optSpec_congr (op : OptPts) (t t' : List Pt) (hl : t'.length = t.length)
+    (hm : ∀ L, msdCounts t' L = msdCounts t L) : ∀ (fuel : Nat) (cur : Nat × Nat) (seen : List Nat),
+    optSpec op t' fuel cur seen = optSpec op t fuel cur seen
+  | 0, _, _ => rfl
+  | fuel + 1, cur, seen => by
+    simp only [optSpec, hl, hm]
+    by_cases h4 : t.length ≤ 4
+    · simp only [h4, if_true]
+    · simp only [h4, if_false]
+      generalize op (locErr (ptsOf (msdCounts t (some (cur.1 : Int))))) t.length = r
+      cases r with
+      | error e => rfl
+      | ok nxt =>
+        simp only
+        by_cases hm' : nxt.1 ∈ cur.1 :: seen
+        · simp only [hm', if_true]
+        · simp only [hm', if_false]
+          exact optSpec_congr op t t' hl hm fuel _ _
+
+theorem locErr_scale (pts : List (Rat × Rat)) (c : Rat) (hc : 0 < c) :
+    locErr (pts.map fun p => (p.1, c * p.2)) = locErr pts := by
+  unfold locErr
+  rw [olsLine_scale]
+  generalize olsLine pts = ab
+  obtain ⟨a, b⟩ := ab
+  have h1 : c * a < 0 ↔ a < 0 := by
+    constructor
+    · intro h; by_contra hn; have : 0 ≤ c * a := mul_nonneg hc.le (not_lt.mp hn); linarith
+    · intro h; exact mul_neg_of_pos_of_neg hc h
+  have h2 : c * b < 0 ↔ b < 0 := by
+    constructor
+    · intro h; by_contra hn; have : 0 ≤ c * b := mul_nonneg hc.le (not_lt.mp hn); linarith
+    · intro h; exact mul_neg_of_pos_of_neg hc h
+  have h3 : c * b = 0 ↔ b = 0 := by simp [hc.ne']
+  have h4 : c * a = 0 ↔ a = 0 := by simp [hc.ne']
+  simp only [h1, h2, h3, h4]
+  congr 3
+  rw [mul_div_mul_left _ _ hc.ne']
+
+theorem optSpec_scale (op : OptPts) (t t' : List Pt) (c : Rat) (hc : 0 < c) (hl : t'.length = t.length)
+    (hm : ∀ L, msdCounts t' L = (msdCounts t L).map fun r => ⟨r.lag, c * r.msd, r.count⟩) :
+    ∀ (fuel : Nat) (cur : Nat × Nat) (seen : List Nat), optSpec op t' fuel cur seen = optSpec op t fuel cur seen
+  | 0, _, _ => rfl
+  | fuel + 1, cur, seen => by
+    simp only [optSpec, hl, hm, ptsOf_scale, locErr_scale _ c hc]
+    by_cases h4 : t.length ≤ 4
+    · simp only [h4, if_true]
+    · simp only [h4, if_false]
+      generalize op (locErr (ptsOf (msdCounts t (some (cur.1 : Int))))) t.length = r
+      cases r with
+      | error e => rfl
+      | ok nxt =>
+        simp only
+        by_cases hm' : nxt.1 ∈ cur.1 :: seen
+        · simp only [hm', if_true]
+        · simp only [hm', if_false]
+          exact optSpec_scale op t t' c hc hl hm fuel _ _
+
 end Verif.C09
